@@ -5,6 +5,7 @@ from . import lasdata
 from .header import LasHeader
 from .point import record
 from .typehints import PathLike
+from .vlrs.vlrlist import VLRList
 
 WHOLE_FILE = 0
 
@@ -31,6 +32,17 @@ class LasMMAP(lasdata.LasData):
         header = LasHeader.read_from(m)
         if header.are_points_compressed:
             raise ValueError("Cannot mmap a compressed LAZ file")
+
+        if header.version.minor >= 4:
+            # mmap objects do not have the seekable() method
+            # LasHeader.read_evlrs relies on
+            if header.number_of_evlrs > 0:
+                m.seek(header.start_of_first_evlr, io.SEEK_SET)
+                header.evlrs = VLRList.read_from(
+                    m, header.number_of_evlrs, extended=True
+                )
+            else:
+                header.evlrs = VLRList()
 
         points_data = record.PackedPointRecord.from_buffer(
             m,
